@@ -509,6 +509,7 @@ func runC16(e *Env) error {
 	}
 	parallel(e.Workers, len(cases), func(i int) { c16Marker(e, cases[i]) })
 	c16SchemaSingles(e, pool)
+	c16Sequences(e)
 	c16CLI(e)
 	c16Planner(e)
 	e.Res.Rule = fmt.Sprintf("(A) 5x5 schema-name pairs x 3 qualifiers x {Table, TableColumn, TableResource(index), SchemaResource, RefTable} of the real Builder vs the model; (B) %d random change lists (AddSchema/DropSchema/ModifySchema/Add|Modify|Drop|RenameTable/Add|Drop|ModifyObject of an enum, in 4 schema names) x qualifier x mode for CheckChangesScope vs the model; (C) %d marker cases: 1-3 change groups out of {create, drop, add column+index, drop index, add fk, drop fk, rename table, rename column, rename index, modify column, modify comment, PostgreSQL add/drop/extend of a stand-alone enum type, drop/modify of a from-state foreign key whose tables live in a differently named (dev) schema, a schema attribute change (must be refused outside in-place mode)}, PostgreSQL enums, optional second schema, x {mysql, postgres} x qualifier {unset, empty, custom} x mode {unset, in-place, deferred, dump, unsorted dump}; (D) CLI: `schema inspect` / `schema diff` with the sql template function (no / two-blank / empty / tab indentation) and the default diff output for schema-bound MySQL and PostgreSQL connections (fixture schemes of the verif build), differently named schemas with the same content, realm-bound connections; non-trivial = a qualifier was requested; distinct by the whole case", ns, nm)
